@@ -306,7 +306,7 @@ def zoo_portfolio_traces(chk, seeds, routes=('mono', 'split', 'io'), zoo_list=No
                             out = eao.io.extract_output(pf, op, res) if not isinstance(res, str) else None
                         elif route == 'split':
                             # an interval must hold at least one coarse step / one period of every asset
-                            op = pf.setup_split_optim_problem(pr, tg, interval_size='4h' if name.split('/')[0] in ('coarse', 'periodic', 'periodic_duration') else '2h')
+                            op = pf.setup_split_optim_problem(pr, tg, interval_size='4h' if name.split('/')[0] in ('coarse', 'coarse_window', 'periodic', 'periodic_duration') else '2h')
                             res = op.optimize()
                             out = eao.io.extract_output(pf, op, res) if not isinstance(res, str) else None
                         else:
